@@ -468,3 +468,5 @@ META = {
     "remain stale by construction of an mtime-keyed cache: not decided here.",
     "more": 'Also decided: no lexical path normalisation (abspath/normpath) anywhere on the launch path: `link/..` is never collapsed without asking the file system. In every view a command is an executable regular file: the executable test skips its own file check only where the path is already known to be a file, and every listed name passed the test. Every \'yes\' of the POSIX executable test is os.access(path, X_OK), the test execvp applies for this process (no answer from mode bits).',
 }
+
+META["more"] += ' The cached detyped environment is dropped whenever Env.__getitem__ hands out a mutable container, whatever its type and whether or not the variable is set (obligation shared with C10).'
